@@ -27,6 +27,11 @@ class _IntMeta(type):
             return SymInt(z3.If(t >= 0, z3.ToInt(t), -z3.ToInt(-t)), None)
         if hasattr(x, '__symint__'):
             return x.__symint__()
+        if isinstance(x, str) and core.TOK in x:
+            v = core.token_value(x)
+            if isinstance(v, SymInt):
+                return SymInt(v.term, None)
+            raise ValueError('invalid literal for int() with base 10: %r' % (x,))
         return _b.int(x, *a, **k)
 
     def __eq__(cls, other):
@@ -55,6 +60,13 @@ class _FloatMeta(type):
             return SymReal(z3.ToReal(x.term), None)
         if hasattr(x, '__symfloat__'):
             return x.__symfloat__()
+        if isinstance(x, str) and core.TOK in x:
+            v = core.token_value(x)
+            if isinstance(v, SymReal):
+                return SymReal(v.term, None)
+            if isinstance(v, SymInt):
+                return SymReal(z3.ToReal(v.term), None)
+            raise ValueError('could not convert string to float: %r' % (x,))
         return _b.float(x)
 
     def __eq__(cls, other):
